@@ -311,6 +311,20 @@ impl<Front: SocketHandler> ConnectionH1<Front> {
 
         let was_main_phase = kawa.is_main_phase();
         kawa::h1::parse(kawa, parts.context);
+        if self.position.is_server()
+            && kawa.is_streaming()
+            && matches!(
+                kawa.parsing_phase,
+                kawa::ParsingPhase::Trailers | kawa::ParsingPhase::Terminated
+            )
+        {
+            // chunked request trailers never reach `on_request_headers`:
+            // drop the proxy-owned attribution fields before they are forwarded.
+            super::pkawa::elide_proxy_owned_trailers(
+                kawa,
+                parts.context.sozu_id_header.as_bytes(),
+            );
+        }
         if kawa.is_error() {
             match self.position {
                 Position::Client(..) => {
@@ -721,6 +735,17 @@ impl<Front: SocketHandler> ConnectionH1<Front> {
                         // read into kawa storage in the first socket_read.
                         if !stream.front.storage.is_empty() {
                             kawa::h1::parse(&mut stream.front, &mut stream.context);
+                            if stream.front.is_streaming()
+                                && matches!(
+                                    stream.front.parsing_phase,
+                                    kawa::ParsingPhase::Trailers | kawa::ParsingPhase::Terminated
+                                )
+                            {
+                                super::pkawa::elide_proxy_owned_trailers(
+                                    &mut stream.front,
+                                    stream.context.sozu_id_header.as_bytes(),
+                                );
+                            }
                             let is_error = stream.front.is_error();
                             let is_main = stream.front.is_main_phase();
                             let malformed = is_main
